@@ -613,3 +613,12 @@ Definition refwrap_ops_m (a b : Z) : Z * Z * Z := let a' := a + 1 in (b + a', a'
 Definition fref_ops_m (v : Z) : list Z := [v + 1; v + 20; v + 20; v + 20; v + 20; v + 1].
 (* not_fn<is_neg>()(v) *)
 Definition notfn_static_m (v : Z) : bool := negb (v <? 0).
+
+(* a void signature: the thunk calls invoke_r<void>, which discards the result; three calls with x, x+1, x+2
+   accumulate in the captured counter *)
+Definition void_ret_m (x : Z) : Z := x + (x + 1) + (x + 2).
+(* make_pair(T1&&, T2&&) -> pair<unwrap_ref_decay_t<T1>, unwrap_ref_decay_t<T2>>: the member type for an argument
+   that is (wrapped = Some k) a reference_wrapper<X> (k = false) / reference_wrapper<X const> (k = true), or any
+   other argument (None) *)
+Definition make_pair_member_m (wrapped : option bool) : ty :=
+  match wrapped with Some k => mkty k RL | None => mkty false RNone end.
